@@ -24,6 +24,7 @@ import (
 	"github.com/semihalev/sdns/internal/verif/vlib"
 	"github.com/semihalev/sdns/middleware"
 	"github.com/semihalev/sdns/middleware/as112"
+	"github.com/semihalev/sdns/middleware/cache"
 	"github.com/semihalev/sdns/middleware/edns"
 	"github.com/semihalev/sdns/middleware/ratelimit"
 )
@@ -282,3 +283,45 @@ func execAS(f []string) vlib.Res {
 
 var _ = hex.EncodeToString
 var _ = time.Now
+
+// ---------------------------------------------------------------- sx
+
+// `sx walk name=<presentation>`: the ancestor walks behind the cut / failure / witness
+// lookups, byte side and decoded side, on the same name.
+func execSX(a map[string]string) vlib.Res {
+	name := a["name"]
+	wn := make([]byte, 300)
+	end, err := dns.PackDomainName(name, wn, 0, nil, false)
+	if err != nil {
+		return vlib.Res{Impl: "unpackable"}
+	}
+	ww, fz, dz := cache.VerifC05SuffixWalks(wn[:end], name)
+	pres := func(b []byte) string {
+		s, _, err := dns.UnpackDomainName(b, 0)
+		if err != nil {
+			return "?" + vlib.Hex(b)
+		}
+		return strings.ToLower(s)
+	}
+	var ws []string
+	for _, b := range ww {
+		ws = append(ws, pres(b))
+	}
+	impl := fmt.Sprintf("w=%s f=%s d=%s", strings.Join(ws, "|"), strings.Join(fz, "|"), strings.Join(dz, "|"))
+	// oracle: every ancestor zone, nearest first, the root last — on all three walks
+	var want []string
+	labels := dns.SplitDomainName(strings.ToLower(name))
+	for i := range labels {
+		want = append(want, strings.Join(labels[i:], ".")+".")
+	}
+	want = append(want, ".")
+	w := strings.Join(want, "|")
+	or := "ok"
+	switch {
+	case strings.Join(ws, "|") != w:
+		or = "FAIL sig=c05/suffix-walk/wire-misses-an-ancestor want=" + w
+	case strings.Join(fz, "|") != w || strings.Join(dz, "|") != w:
+		or = "FAIL sig=c05/suffix-walk/decoded-walks-differ want=" + w
+	}
+	return vlib.Res{Impl: impl, Oracle: or, Tags: "nt"}
+}
